@@ -63,7 +63,9 @@ let req_of = function
   | _ -> raise (Parse_error "req")
 
 let rec tree_of = function
-  | L [A "file"; m] -> File (bool_ m)
+  | L [A "file"; m] ->
+    (* the texts are not observed by C11 (values are compared by kind): placeholders *)
+    File { f_clen = ['0']; f_etag = ['e']; f_ctype = (if bool_ m then ['t'] else []) }
   | L (A "dir" :: cs) ->
     Dir (List.map (function L [n; t] -> (str n, tree_of t) | _ -> raise (Parse_error "child")) cs)
   | _ -> raise (Parse_error "tree")
@@ -144,7 +146,7 @@ let () =
       (match target_of tg with
        | Segs (rs, trailing) ->
          let path = req_path [] rs trailing in
-         let in_q = tree_ok t && segs_ok rs in
+         let in_q = tree_ok t && segs_ok rs && nul_free rs in
          judge ~by_rid:true sx (dav_model t path ct bd dh) (fun o -> if in_q then dav_spec t rs ct bd dh o else true) obs
        | Path path ->
          bump "outside_quantifier";
